@@ -2694,6 +2694,11 @@ class Interferometer(Decomposition):
             decomp_fn = getattr(dec, mesh)
             BS1, R, BS2 = decomp_fn(self.p[0], tol=tol)
 
+            if mesh == "triangular":
+                # dec.triangular returns U = Ti_k ... Ti_1 diag(R): the local phases
+                # come first and are followed by the *inverse* T unitaries in list order
+                BS1, BS2 = [], list(reversed(BS1))
+
             for n, m, theta, phi, _ in BS1:
                 theta = theta if np.abs(theta) >= _decomposition_tol else 0
                 phi = phi if np.abs(phi) >= _decomposition_tol else 0
